@@ -19,7 +19,10 @@ client already connected, the others with a client that is not connected yet (wh
 Both lock sites are instrumented when present: `manager._transaction_lock` and `client._connect_lock`.
 The scripted world of a case also says which connection attempts are REFUSED (`create_connection` raises): a caller
 whose own attempt was refused must get ConnectionException, everybody else its own reply, and nobody may be left
-blocked (a lock that is not given back on that path shows up as a deadlock)."""
+blocked (a lock that is not given back on that path shows up as a deadlock).  A request may also be marked `lost`: the
+peer stays silent for it, the read comes back short, the client closes the connection and the next call re-opens it;
+that caller must get its own error object, every other caller its own reply (a reconnect that escapes the client lock
+shows up as a reply that was delivered but not received)."""
 import sys
 import threading
 
@@ -43,6 +46,7 @@ ASSUMPTIONS = ['pre-emption happens only at the yield points (every transport op
                'the registers addr, addr+1, ... (or exception 03 for a quantity outside 1..125); a read on an empty '
                'connection times out (virtual clock)',
                'requests are read-holding-registers requests with unit < 256, address and quantity < 65536',
+               'a lost reply = the peer never answers that request (a reply that arrives late is not modelled here)',
                'lock objects are observed through wrappers assigned from outside to manager._transaction_lock and '
                'client._connect_lock (whatever objects the code created there)']
 TRUSTED = ['harness/c15.py cooperative scheduler and instrumented lock wrapper (observes acquire/release from outside)',
@@ -285,7 +289,8 @@ class Peer:
         self.stream.append([])
         return len(self.stream) - 1
 
-    def write(self, conn, thread, first, data):
+    def write(self, conn, thread, first, data, lost=False):
+        """`lost`: what the peer produces while this request is being written never arrives"""
         self.wire.append([thread, 1 if first else 0, conn, list(data)])
         pend = self.pending[conn]
         pend += list(data)
@@ -298,7 +303,8 @@ class Peer:
                 break
             frame = pend[:6 + ln]
             del pend[:6 + ln]
-            self.stream[conn] += reply_to(frame)
+            if not lost:
+                self.stream[conn] += reply_to(frame)
 
     def read(self, conn, n):
         st = self.stream[conn]
@@ -316,6 +322,7 @@ class Env:
         self.peer = Peer()
         self.lats = lats            # thread index -> latency of the request it is executing
         self.fresh = {}
+        self.lost = {}              # thread index -> the reply to the request it is executing is lost
         self.clock = 1000.0
         self.fail = fail            # which create_connection calls are refused: 'all' or a collection of indices
         self.attempts = 0
@@ -338,9 +345,9 @@ class FakeSocket:
         i = env.sched.me()
         data = bytes(data)
         env.sched.yield_('send1')
-        env.peer.write(self.conn, i, True, data[:7])
+        env.peer.write(self.conn, i, True, data[:7], env.lost.get(i, False))
         env.sched.yield_('send2')
-        env.peer.write(self.conn, i, False, data[7:])
+        env.peer.write(self.conn, i, False, data[7:], env.lost.get(i, False))
         env.fresh[i] = True
         return len(data)
 
@@ -495,6 +502,7 @@ def run_schedule(threads, chooser, connected=True):
         try:
             for k, r in enumerate(threads[i]):
                 lats[i] = r['lat']
+                env.lost[i] = bool(r.get('lost'))
                 req = ReadHoldingRegistersRequest(r['addr'], r['count'], unit=r['unit'])
                 marks.append((i, k, 'begin', len(sched.events)))
                 try:
@@ -650,6 +658,12 @@ def check_property(rep, case, run, expected, threads):
                                   thread=i, k=k, request=q, got=r[1])
                     ok = False
                 continue
+            if q.get('lost'):
+                if r[1] != {'err': 'modbusio'}:
+                    rep.violation('a caller whose reply was lost did not get its error object', case,
+                                  thread=i, k=k, request=q, got=r[1])
+                    ok = False
+                continue
             want = {'tid': r[0], 'unit': q['unit'], 'msg': e}
             if r[1] != want:
                 rep.violation('a caller did not get the reply to its own request', case, thread=i, k=k,
@@ -670,6 +684,8 @@ def model_scope():
         return 'whole'
     if outer == 'connectOnly' and inner == 'whole':
         return 'connectLocked'
+    if outer == 'connectOnlyWhenCold' and inner == 'whole':
+        return 'lockOnlyWhenCold'    # a caller that sees a socket goes straight to the manager
     if outer == 'acquireTryFinally:connectOutsideTry' and inner == 'whole':
         return 'leakOnFail'          # the client lock is not given back when the connect fails
     if outer == 'acquireTryFinally' and inner == 'whole':
@@ -793,6 +809,15 @@ def gen_req(rng, unit=None):
             'lat': rng.choice([0, 0, 0, 1, 1, 2])}
 
 
+def with_losses(rng, th, n=1):
+    """mark `n` of the requests as unanswered (the peer stays silent: the reply is lost)"""
+    th = [[dict(r) for r in t] for t in th]
+    slots = [(i, k) for i, t in enumerate(th) for k in range(len(t))]
+    for (i, k) in rng.sample(slots, min(n, len(slots))):
+        th[i][k]['lost'] = 1
+    return th
+
+
 def gen_threads(rng, shape, maxlat=2):
     """different unit per thread in ~2/3 of the cases, any units in the rest (same unit, 0 and 255 included)"""
     mode = rng.random()
@@ -895,8 +920,19 @@ def run(ctx):
         plan.append((sh, {'connected': False, 'fail': scripts[n_ % len(scripts)]}, 1))
         if len(sh) == 2 or not ctx.quick:
             plan.append((sh, {'connected': False, 'fail': scripts[(n_ + 3) % len(scripts)]}, 1))
+    # lost replies (the peer stays silent for one or two requests): the connection is closed and re-opened by the next
+    # call — 2..3 threads, the others calling before / after / concurrently; connected and cold clients, also
+    # combined with a refused re-connection
+    loss_plan = [((2, 1), True, 1), ((1, 2), True, 1), ((2, 2), True, 1), ((2, 2), False, 1), ((3, 2), True, 2),
+                 ((2, 1, 1), True, 1), ((2, 2, 1), True, 2), ((2, 2), {'connected': True, 'fail': [0]}, 1),
+                 ((2, 1, 1), {'connected': False, 'fail': [1]}, 1), ((3, 1), True, 1)]
+    if not ctx.quick:
+        loss_plan = loss_plan * 3 + [((3, 3), True, 2), ((2, 2, 2), True, 2), ((3, 2, 1), False, 1),
+                                     ((2, 2, 2, 1), True, 2), ((3, 3, 2), {'connected': True, 'fail': [1]}, 2)]
+    first = [((1, 1), {'connected': False, 'fail': [0]}, 1, 0), ((2, 1), {'connected': False, 'fail': [0, 1]}, 1, 0)]
+    plan = first + [(sh, w, 1, nl) for sh, w, nl in loss_plan] + [(sh, w, k, 0) for sh, w, k in plan]
     exhaustive = True
-    for shape, conn, ncases in plan:
+    for shape, conn, ncases, nlost in plan:
         for _ in range(ncases):
             if enough():
                 break
@@ -904,6 +940,8 @@ def run(ctx):
                 exhaustive = False
                 break
             th = gen_threads(rng, shape, maxlat=1 if sum(shape) > 2 else 2)
+            if nlost:
+                th = with_losses(rng, th, nlost)
             status = {}
             for r in explore(th, 60000, lambda: left() + 12 - ctx.scale(6, 200), False, conn, status):
                 add(th, conn, r, 'dfs')
@@ -913,7 +951,8 @@ def run(ctx):
             if not status.get('complete') and not enough():
                 exhaustive = False
                 rep.hist['dfs-truncated:%s' % 'x'.join(map(str, shape))] += 1
-            rep.hist['dfs-cases:%s:%s' % ('x'.join(map(str, shape)), world_tag(conn))] += 1
+            rep.hist['dfs-cases:%s:%s%s' % ('x'.join(map(str, shape)), world_tag(conn),
+                                            ':lost=%d' % nlost if nlost else '')] += 1
     flush()
     rep.exhaustive = exhaustive and not enough()
 
@@ -924,6 +963,8 @@ def run(ctx):
             break
         shape = tuple(rng.randrange(1, 4) for _ in range(rng.randrange(2, 5)))
         th = gen_threads(rng, shape)
+        if rng.random() < 0.4:
+            th = with_losses(rng, th, rng.choice([1, 1, 2]))
         conn = rng.random() < 0.6
         if not conn and rng.random() < 0.6:
             conn = {'connected': False, 'fail': rng.choice(scripts + [[rng.randrange(4)], [0, 1, 2]])}
@@ -939,6 +980,8 @@ def run(ctx):
                 break
             for conn in (True, False, {'connected': False, 'fail': scripts[len(shape) % len(scripts)]}):
                 th = gen_threads(rng, shape, maxlat=1)
+                if rng.random() < 0.5:
+                    th = with_losses(rng, th, 1)
                 budget = min(cap - total[0], 6000)
                 if budget <= 0 or left() < 15:
                     break
